@@ -11,6 +11,10 @@ class InjectedFault(Exception):
     """Raised by a Probe at a chosen pull (fault injection)."""
 
 
+class InjectedInterrupt(KeyboardInterrupt):
+    """Fault that is not an Exception (what Ctrl-C or sys.exit() inside an element raise)."""
+
+
 class Token(object):
     """Unique weak-referenceable input value; ``n`` identifies it."""
     __slots__ = ("n", "__weakref__")
@@ -59,12 +63,13 @@ class Probe(object):
     """
 
     def __init__(self, trace, n=None, make=None, budget=None, fault_at=None,
-                 census=False, name="pull"):
+                 census=False, name="pull", fault_exc=None):
         self.trace = trace
         self.n = n
         self.make = make or Token
         self.budget = budget
         self.fault_at = fault_at
+        self.fault_exc = fault_exc or InjectedFault
         self.census = census
         self.i = 0
         self.name = name
@@ -85,7 +90,7 @@ class Probe(object):
         if self.fault_at is not None and self.i == self.fault_at:
             self.trace.log("fault", self.i)
             self.i += 1
-            raise InjectedFault("injected at pull %d" % (self.i - 1))
+            raise self.fault_exc("injected at pull %d" % (self.i - 1))
         v = self.make(self.i)
         if self.census:
             tok = v
